@@ -391,6 +391,24 @@ impl Sim {
         self.state.borrow().ticks_total
     }
 
+    /// Start consuming the decision list from its beginning again: what follows sees exactly the
+    /// decisions consumed so far (same hash orders, same random words), then new ones. Used to
+    /// run one workload twice under the *same* schedule, which production can never do.
+    pub fn rewind(&self) {
+        let mut s = self.state.borrow_mut();
+        if s.consumed.orders.len() >= s.given.orders.len() {
+            s.given.orders = s.consumed.orders.clone();
+        }
+        if s.consumed.draws.len() >= s.given.draws.len() {
+            s.given.draws = s.consumed.draws.clone();
+        }
+        s.consumed = Vector::default();
+        s.order_sites.clear();
+        s.next_order = 0;
+        s.next_draw = 0;
+        s.log.u64(0xFEED);
+    }
+
     pub fn finish(self) -> EnvReport {
         verif::install(None);
         let s = self.state.borrow();
